@@ -152,6 +152,23 @@ def run(repo: Repo, rep: Report, tier: str) -> None:
         rep.check(ok, "C04-R5", "bidirectional classification depends only on the reverse edge being present",
                   "; ".join(("" if p else "not ") + g[:90] for g, p in gs), fb.loc(c))
     pop = repo.func("ConnectionPlanner._populate_wire_connections")
-    direct_loops = [n for n in walk_local(pop.node) if isinstance(n, ast.For) and isinstance(n.iter, ast.Call) and call_name(n.iter) == "sorted" and any(call_name(x) == "_route_edge_directly" for x in calls_in(n))]
-    ok = any(not any("mst" in g.lower() for g, _ in cguards_any(pop, n)) for n in direct_loops)
-    rep.check(ok, "C04-R5", "bidirectional sinks are always routed directly", "an unconditional loop routes them with _route_edge_directly" if ok else "missing", pop.loc())
+    cpop = canon(pop)
+    # the set of bidirectional sinks: a local set filled under membership in the pairs found by _find_bidirectional_pairs
+    bidir_sets = {c_.func.value.id for c_ in calls_in(pop.node, "add") if isinstance(c_.func, ast.Attribute) and isinstance(c_.func.value, ast.Name)
+                  and any(pol and "self._find_bidirectional_pairs(" in g and " in " in g for g, pol in cguards(pop, c_))}
+    rep.floor("C04-R5", "local sets of bidirectional sinks", len(bidir_sets), 1)
+    routing_loops = []
+    for call_ in calls_in(pop.node, "_route_edge_directly"):
+        cur = call_
+        while cur in cpop.pm and not isinstance(cur, ast.For):
+            cur = cpop.pm[cur]
+        if isinstance(cur, ast.For) and cur not in routing_loops:
+            routing_loops.append(cur)
+    over_bidir = [n for n in routing_loops if any(isinstance(x, ast.Name) and x.id in bidir_sets for x in ast.walk(n.iter))]
+    ok = any(not any("mst" in g.lower() for g, _ in cguards(pop, n)) for n in over_bidir)
+    rep.check(ok, "C04-R5", "bidirectional sinks are always routed directly", "a loop over the bidirectional sinks routes them with _route_edge_directly whatever the spanning tree did" if ok else
+              ("no direct-routing loop over the bidirectional sinks" if not over_bidir else "the only loop that routes bidirectional sinks is conditional on the spanning-tree outcome: when the tree succeeds the loop-closing wire of a two-combinator feedback loop is never laid"), pop.loc())
+
+    # ---------------- R6 ---------------------------------------------------------------
+    from .shared import borrow as _borrow4
+    _borrow4(repo, rep, "C03", "C03-R7", "C04-R6", "the loop's last combinator emits the signal the cell is read on: the written value is coerced onto the cell's signal on every path")
